@@ -140,6 +140,8 @@ def as_predset(it, v):
         hi_t = hi if z3.is_expr(hi) else z3.IntVal(hi)
         return PredSet(lambda x: z3.And((x if z3.is_expr(x) else z3.IntVal(x)) >= lo_t, (x if z3.is_expr(x) else z3.IntVal(x)) < hi_t),
                        card=z3.If(hi_t > lo_t, hi_t - lo_t, 0))
+    if isinstance(v, SymList) and getattr(v, 'sorted_set', None) is not None:
+        return v.sorted_set[0]                 # set(sorted(s)) == s
     if isinstance(v, SymList):
         n, arr = v.n, v.arr
         if v.elem != 'int':
@@ -310,6 +312,9 @@ class ProvList(SymList):
 
 
 def empty_provlist(kind):
+    if isinstance(kind, pm.MsgSchema):
+        es = pm.msg_sort(kind)
+        return ProvList(z3.IntVal(0), z3.K(z3.IntSort(), pm._default_term(es)), kind)
     es = pm.scalar_sort(kind)
     return ProvList(z3.IntVal(0), z3.K(z3.IntSort(), pm._default_term(es) if es != PT else z3.Const('default_PTrial', PT)), kind)
 
@@ -638,3 +643,39 @@ def _wrap_quant(name, universal):
 
 _wrap_quant('all', True)
 _wrap_quant('any', False)
+
+
+# ------------------------------------------------------------------------------------------ sorted(<symbolic set of ints>)
+def sorted_of_set(it, s):
+    """sorted(s): the strictly increasing listing of the set; `lpos` is its inverse (position of a member)."""
+    run = it.run
+    n = run.fresh('sortedset_n', z3.IntSort())
+    arr = run.fresh('sortedset_a', z3.ArraySort(z3.IntSort(), z3.IntSort()))
+    lpos = run.fresh('sortedset_pos', z3.ArraySort(z3.IntSort(), z3.IntSort()))
+    run.assume(n >= 0)
+    x, j, k = z3.Int('x!ss'), z3.Int('j!ss'), z3.Int('k!ss')
+    run.axiom(z3.ForAll([j], z3.Implies(z3.And(j >= 0, j < n), z3.And(s.has(arr[j]), lpos[arr[j]] == j))))
+    run.axiom(z3.ForAll([x], z3.Implies(s.has(x), z3.And(lpos[x] >= 0, lpos[x] < n, arr[lpos[x]] == x))))
+    run.axiom(z3.ForAll([j, k], z3.Implies(z3.And(j >= 0, j < k, k < n), arr[j] < arr[k])))
+    run.assume(card_of_list(n, arr) == n)
+    if s.card is not None:
+        run.assume(n == s.card)
+    r = SymList(n, arr, 'int')
+    r.sorted_set = (s, lpos)
+    run.set_listings = getattr(run, 'set_listings', []) + [(n, arr, s)]
+    return r
+
+
+def _wrap_sorted():
+    orig = M.BUILTINS['sorted'].fn
+
+    def fn(it, args, kw):
+        if args and isinstance(args[0], PredSet):
+            if kw.get('key') is not None or kw.get('reverse', False) is not False:
+                raise Unsupported('sorted(<symbolic set>, key=/reverse=)')
+            return sorted_of_set(it, args[0])
+        return orig(it, args, kw)
+    M.BUILTINS['sorted'] = Builtin('sorted', fn)
+
+
+_wrap_sorted()
